@@ -47,6 +47,14 @@ func run(prop, tier string, c *core.Choices, trace bool) *harness.RunResult {
 			}
 		}
 	}
+	// the determinism hash also covers the final kernel state and the verdict
+	verdictText := "pass"
+	if s.Viol != nil {
+		verdictText = s.Viol.Oracle + "/" + w.key + ": " + s.Viol.Message
+	}
+	if !trace {
+		s.Note(strings.ReplaceAll("end state: "+w.Kern.SaveAll()+verdictText, "%", "%%"))
+	}
 	res := &harness.RunResult{Viol: s.Viol, Key: w.key, Infra: s.Infra, Stats: s.Stats, Steps: s.Steps, SimNanos: core.ClockNanos(), Hash: s.Hash(),
 		Trace: s.Trace, States: w.states}
 	if s.OutOfSteps && s.Viol == nil && res.Infra == "" {
